@@ -53,7 +53,17 @@ func c10ServerSide(c *fw.Ctx, cs c10Case) {
 		}
 		return -1
 	}
-	ch, tok, err := refpeer.OpenSecureSession(addr, rs.Endpoint, p, cs.Mode, ck.Key, ck.Cert, sk.Cert, refpeer.ClientOpts{})
+	// variants: the client's numbering starts shortly before the end of its range and wraps to 0 during the history
+	// (a chunk numbered 0 is as replayable as any other, and so is one from before the wrap); a token renewal right
+	// before a replay (the recorded chunk then belongs to the previous, still valid token)
+	wrapVariant, renewVariant := r.Intn(3) == 0, r.Intn(3) == 0
+	copts := refpeer.ClientOpts{}
+	if wrapVariant {
+		copts.FirstSeq = 0xffffffff - 1024 - uint32(4+r.Intn(8))
+		cs.Steps = append(cs.Steps, fmt.Sprintf("the client's sequence numbers start after %d (they wrap to 0 a few chunks later)", copts.FirstSeq))
+		c.Class("server-side:variant-wrap", 1)
+	}
+	ch, tok, err := refpeer.OpenSecureSession(addr, rs.Endpoint, p, cs.Mode, ck.Key, ck.Cert, sk.Cert, copts)
 	if err != nil {
 		c.Inconclusive("secured session: " + classOf(err.Error()))
 		return
@@ -86,7 +96,7 @@ func c10ServerSide(c *fw.Ctx, cs c10Case) {
 			return false
 		}
 		history = append(history, sent{raw, val, reqID})
-		cs.Steps = append(cs.Steps, fmt.Sprintf("write %d (request %d)", val, reqID))
+		cs.Steps = append(cs.Steps, fmt.Sprintf("write %d (request %d, sequence number %d)", val, reqID, ch.SendSeq))
 		return true
 	}
 	n := 3 + r.Intn(6)
@@ -105,6 +115,18 @@ func c10ServerSide(c *fw.Ctx, cs c10Case) {
 			// re-send a verbatim copy of an earlier chunk (not the latest, so that an effect is visible)
 			old := history[r.Intn(len(history)-1)]
 			last := history[len(history)-1]
+			if wrapVariant && r.Intn(2) == 0 {
+				old = last // the chunk just sent (its effect cannot be told from the original's, a second answer can)
+			}
+			if renewVariant && r.Intn(2) == 0 {
+				ch.Conn.SetReadDeadline(time.Now().Add(5 * time.Second))
+				if _, err := ch.Open(true, 600000); err != nil {
+					c.Inconclusive("renewal: " + classOf(err.Error()))
+					return
+				}
+				cs.Steps = append(cs.Steps, fmt.Sprintf("token renewed (OPN sequence number %d, %d tokens)", ch.SendSeq, len(ch.Tokens)))
+				c.Class("server-side:variant-renewal-before-replay", 1)
+			}
 			cs.Steps = append(cs.Steps, fmt.Sprintf("replay of the chunk that wrote %d (request %d)", old.val, old.reqID))
 			c.Journal(cs.Index, cs)
 			if ch.WriteRaw(old.raw) != nil {
@@ -123,7 +145,7 @@ func c10ServerSide(c *fw.Ctx, cs c10Case) {
 			}
 			v, err := ch.Await(old.reqID, 800*time.Millisecond)
 			c.Eval(1)
-			if got := cur(); got == old.val {
+			if got := cur(); got == old.val && old.reqID != last.reqID {
 				cs.Detail = fmt.Sprintf("after the replay the value is %d again, the last fresh write was %d", got, last.val)
 				c.Violation("c10:server-executed-replayed-chunk:"+modeName(cs.Mode), fmt.Sprintf("%s/%s: a verbatim copy of an earlier Write chunk was executed a second time: %s", p.Name, modeName(cs.Mode), cs.Detail), cs)
 				return
